@@ -65,6 +65,7 @@ func (_this *Encoder) Init(config *configuration.Configuration) {
 // PrepareToEncode MUST be called before using the encoder.
 func (_this *Encoder) PrepareToEncode(writer io.Writer) {
 	_this.writer.SetWriter(writer)
+	_this.trySmallArrayHeader = false
 }
 
 // ============================================================================
